@@ -78,7 +78,7 @@ def gen_truth(rng, n_events=None, dt=None, noise=0.0, datum=0.0, isolated=0):
     """`isolated`: the record starts with that many short dry spells low on the curve, each lifted clear of the
     one before by a large storm, so that these recession pieces share no level with one another or with the
     main body that follows (they are left out of the recession curve; the storms still overlap)."""
-    dt = dt or rng.choice([600, 1200, 1800, 3600])
+    dt = dt or rng.choice([600, 1200, 1800, 3600, 600, 1200, 1800, 3600, 10800, 86400])
     t0 = (rng.randint(631152000, 1893456000) // dt) * dt
     sy = rng.choice([0.125, 0.25, 0.5])
     NZ = (160 if (n_events or 0) <= 9 else 40 * (n_events + 2)) + 12 * isolated
@@ -89,7 +89,10 @@ def gen_truth(rng, n_events=None, dt=None, noise=0.0, datum=0.0, isolated=0):
     drops = [0.5, 0.75, 1.0, 1.25, 1.5, 2.0, 3.0] if rng.random() < 0.7 else [0.3, 0.7, 1.1, 1.3, 1.9, 2.3, 0.9]
     for _ in range(NZ):
         Z.append(Z[-1] - rng.choice(drops))
-    s, j = 0.25, (2.0 if not noise else 3600.0 / dt)
+    # thresholds are intensities (mm/h): for steps longer than an hour they are scaled so that the same depths per
+    # step separate light rain from storms and drift from rises
+    h = 3600.0 / dt if dt > 3600 else 1.0
+    s, j = 0.25 * h, (2.0 * h if not noise else 3600.0 / dt)
     n_events = n_events or rng.randint(3, 9)
     NZ0 = NZ - 12 * isolated
     pos = rng.randint(10, 40) if NZ0 == 160 else rng.randint(NZ0 // 3, NZ0 // 2)          # index into Z
@@ -115,7 +118,7 @@ def gen_truth(rng, n_events=None, dt=None, noise=0.0, datum=0.0, isolated=0):
         pos = m
         events.append(("storm", q, m))
         # one light-rain step, level already receding
-        rain.append(0.25)
+        rain.append(0.25 * h)
         pos += 1
         level.append(Z[pos])
         # dry recession
